@@ -1253,7 +1253,9 @@ class WebSocketProtocol13(WebSocketProtocol):
             if len(data) >= 2:
                 self.close_code = struct.unpack(">H", data[:2])[0]
             if len(data) > 2:
-                self.close_reason = to_unicode(data[2:])
+                # A reason that is not valid UTF-8 must not derail the close
+                # handshake (and with it the close notification).
+                self.close_reason = data[2:].decode("utf-8", "replace")
             # Echo the received close code, if any (RFC 6455 section 5.5.1).
             self.close(self.close_code)
         elif opcode == 0x9:
